@@ -108,9 +108,14 @@ def jobs(pid, tier):
     if pid == 'C20':
         return [seq('C20')]
     if pid == 'C10':
-        return [seq('C10')]
+        if q:
+            return [seq('C10'), vrt('C09', [r'lq_.*'], bound=2, workers=4)]
+        return [seq('C10'), vrt('C09', [r'lq_.*'], bound=3, workers=8)]
     if pid == 'C09':
-        return [seq('C09')]
+        if q:
+            return [seq('C09'), vrt('C09', [r'q_p1_.*', r'q_p2_c1_(block|coro)'], bound=2, workers=4)]
+        return [seq('C09'), vrt('C09', [r'q_p1_.*', r'q_p2_c1_.*'], bound=3, workers=8),
+                vrt('C09', [r'q_p2_c2_.*'], bound=2, workers=16)]
     if pid == 'C12':
         return [seq('C12')]
     if pid == 'C16':
